@@ -199,6 +199,10 @@ class TerminalModel:
 
     def _ee_command(self):
         ctrl = self.mem[0x502] | (self.mem[0x503] << 8)
+        if self.ee_idle_busy > 0 or self.ee_polls_left > 0:
+            # the interface ignores commands while it is busy
+            self.ee_ignored = getattr(self, "ee_ignored", 0) + 1
+            return
         if ctrl & 0x100:   # read
             word = int.from_bytes(self.mem[0x504:0x508], "little")
             n = 8 if self.ee_eight else 4
